@@ -643,3 +643,12 @@ MUTANTS += [
                     }''')],
      'expect': {'C06': None, 'C08': None, 'C02': None, 'C01': None, 'C16': None}},
 ]
+
+MUTANTS += [
+    {'name': 'silent_object_flags_renumbered', 'edits': [(P, '''#define BINSON_STATE_IN_OBJ_EXPECTING_FIELD (0x0001U)
+#define BINSON_STATE_IN_OBJ_EXPECTING_VALUE (0x0002U)
+#define BINSON_STATE_IN_OBJECT              (0x0003U)''', '''#define BINSON_STATE_IN_OBJ_EXPECTING_FIELD (0x0010U)
+#define BINSON_STATE_IN_OBJ_EXPECTING_VALUE (0x0020U)
+#define BINSON_STATE_IN_OBJECT              (0x0030U)''')],
+     'expect': {'C07': None, 'C06': None, 'C08': None, 'C02': None, 'C16': None, 'C01': None, 'C12': None}},
+]
